@@ -139,13 +139,22 @@ pub fn align_full(model: &[(Tok, Slot)], out: &[OTok], trailing_comments: &[Stri
         // unicode-range pseudo token: consume output tokens up to the next comma / semicolon / closing brace
         if let TokKind::Ident(s) = &m.kind {
             if let Some(spelling) = s.strip_prefix("\u{1}UR:") {
+                // the pieces of a range are written without anything between them: take the run of adjacent tokens
                 let start = j;
-                while j < out.len() && !matches!(out[j].kind, OKind::Comma | OKind::Semicolon | OKind::Close(_)) {
+                while j < out.len() && matches!(out[j].kind, OKind::Ident(_) | OKind::Number(_) | OKind::Dimension(..) | OKind::Delim('+') | OKind::Delim('?')) && (j == start || (out[j].start == out[j - 1].end && out[j].comments_before.is_empty())) {
                     j += 1;
+                }
+                // (a range torn apart — `U +26` — leaves its remaining pieces behind: skip them so that one issue is reported)
+                if j > start && ocss::unicode_range_value(&out_text[out[start].start..out[j - 1].end]).is_none() {
+                    while j < out.len() && !matches!(out[j].kind, OKind::Comma | OKind::Semicolon | OKind::Close(_) | OKind::Delim('!')) {
+                        j += 1;
+                    }
                 }
                 if start == j {
                     issues.push(Issue { class: "tokens", key: "unicode-range-missing".into(), what: format!("unicode-range {} has no output", spelling) });
                 } else {
+                    // (the range is one unit of the output: its first piece stands for it in the source map)
+                    pairs.push((i, start));
                     let text = &out_text[out[start].start..out[j - 1].end];
                     let exp = ocss::unicode_range_value(spelling);
                     let got = ocss::unicode_range_value(text);
